@@ -254,7 +254,11 @@ def shift_invariance(ctx, cname, tr, tot, since):
                     continue
                 seen.add(k)
                 ok = invariant(sub)
-                cons = what if what.startswith("condition") else "%s: %s" % (what, q.short(sub, 90))
+                if what.startswith("condition"):
+                    others = sorted({a[1] for a in T.walk(sub) if a[0] == "attr" and a[1] != tot})
+                    cons = "condition on the lifetime counter %s%s" % (tot, (" and " + ", ".join(others)) if others else " alone")
+                else:
+                    cons = "%s: %s" % (what, q.short(sub, 90))
                 ctx.ob("TNT-shift", e.func.qualname, cons, ok,
                        "the lifetime counter %s influences a decision or statistic other than through (counter - epoch start)" % tot, e)
 
